@@ -21,11 +21,14 @@ const (
 	LocFresh   LocSet = 1
 	LocUnknown LocSet = 2
 	LocGlobal  LocSet = 4
-	locParam0         = 3
+	// LocNil: the value may be (or hold) a nil map - a nil constant of map type, the content of a map variable
+	// that is never assigned, or what a callee returns where it may return such a value
+	LocNil    LocSet = 8
+	locParam0        = 4
 )
 
 func LocParam(i int) LocSet { return 1 << uint(locParam0+i) }
-func (l LocSet) Params() LocSet { return l &^ (LocFresh | LocUnknown | LocGlobal) }
+func (l LocSet) Params() LocSet { return l &^ (LocFresh | LocUnknown | LocGlobal | LocNil) }
 func (l LocSet) HasParam(i int) bool { return l&LocParam(i) != 0 }
 
 func (l LocSet) Describe(f *ssa.Function) string {
@@ -38,6 +41,9 @@ func (l LocSet) Describe(f *ssa.Function) string {
 	}
 	if l&LocGlobal != 0 {
 		s = append(s, "global")
+	}
+	if l&LocNil != 0 {
+		s = append(s, "nil-map")
 	}
 	n := len(f.Params)
 	for i := 0; i < n+len(f.FreeVars); i++ {
@@ -68,6 +74,11 @@ type Effects struct {
 	// RetIdent[k] = parameters that may be returned as the very same pointer/value.
 	Ret      []LocSet
 	RetIdent []LocSet
+	// RetNil[k]: the k-th result may be (or hold) a nil map. MapWrites: parameters whose map is assigned into
+	// (m[k] = v). NilMapWrites: map assignments whose map may be nil (they panic).
+	RetNil       []bool
+	MapWrites    LocSet
+	NilMapWrites []WriteSite
 	Externals map[string]bool // non-repo callees assumed not to write their arguments
 }
 
@@ -145,7 +156,7 @@ func ComputeEffects(p *Prog) *EffectsInfo {
 	ei := &EffectsInfo{P: p, Of: map[*ssa.Function]*Effects{}}
 	for _, f := range p.Funcs {
 		nr := f.Signature.Results().Len()
-		ei.Of[f] = &Effects{Fn: f, Ret: make([]LocSet, nr), RetIdent: make([]LocSet, nr), Externals: map[string]bool{}}
+		ei.Of[f] = &Effects{Fn: f, Ret: make([]LocSet, nr), RetIdent: make([]LocSet, nr), RetNil: make([]bool, nr), Externals: map[string]bool{}}
 	}
 	for round := 0; round < 30; round++ {
 		changed := false
@@ -190,6 +201,16 @@ func (ei *EffectsInfo) analyse(f *ssa.Function) bool {
 	}
 	var sites []WriteSite
 	writes := LocSet(0)
+	mapWrites := LocSet(0)
+	var nilSites []WriteSite
+	seenNil := map[ssa.Instruction]bool{}
+	mapWrite := func(ins ssa.Instruction, target LocSet, what string) {
+		mapWrites |= target.Params()
+		if target&LocNil != 0 && !seenNil[ins] {
+			seenNil[ins] = true
+			nilSites = append(nilSites, WriteSite{ins, target, what})
+		}
+	}
 	seenSite := map[ssa.Instruction]bool{}
 	write := func(ins ssa.Instruction, target LocSet, what string) {
 		t := target.Params()
@@ -205,6 +226,11 @@ func (ei *EffectsInfo) analyse(f *ssa.Function) bool {
 	get := func(v ssa.Value) LocSet {
 		switch x := v.(type) {
 		case *ssa.Const:
+			if x.IsNil() {
+				if _, isMap := x.Type().Underlying().(*types.Map); isMap {
+					return LocNil
+				}
+			}
 			return 0
 		case *ssa.Global:
 			return LocGlobal
@@ -274,6 +300,7 @@ func (ei *EffectsInfo) analyse(f *ssa.Function) bool {
 			r := LocSet(0)
 			for _, g := range targets {
 				r |= ei.applySummary(f, ins, g, args, get, write)
+				ei.applyMapWrites(f, ins, g, args, get, mapWrite)
 			}
 			if len(targets) == 0 {
 				return LocUnknown
@@ -299,6 +326,7 @@ func (ei *EffectsInfo) analyse(f *ssa.Function) bool {
 			}
 			return 0
 		}
+		ei.applyMapWrites(f, ins, g, c.Args, get, mapWrite)
 		return ei.applySummary(f, ins, g, c.Args, get, write)
 	}
 	for iter := 0; iter < 40; iter++ {
@@ -318,6 +346,10 @@ func (ei *EffectsInfo) analyse(f *ssa.Function) bool {
 		Instrs(f, func(ins ssa.Instruction) {
 			switch x := ins.(type) {
 			case *ssa.Alloc:
+				// a map variable that is never assigned holds the nil map (new(MapType), var m map[K]V whose address is taken)
+				if _, isMap := x.Type().Underlying().(*types.Pointer).Elem().Underlying().(*types.Map); isMap && len(Stores(x)) == 0 {
+					setCell(x, LocNil)
+				}
 			case *ssa.MakeSlice, *ssa.MakeMap, *ssa.MakeChan:
 				set(x.(ssa.Value), LocFresh)
 			case *ssa.FieldAddr:
@@ -380,6 +412,7 @@ func (ei *EffectsInfo) analyse(f *ssa.Function) bool {
 				}
 			case *ssa.MapUpdate:
 				write(ins, get(x.Map), "map update of "+get(x.Map).Describe(f))
+				mapWrite(ins, get(x.Map), "assignment into the map "+Path(x.Map))
 			case *ssa.MakeClosure:
 				g := x.Fn.(*ssa.Function)
 				ge := ei.Of[g]
@@ -451,6 +484,9 @@ func (ei *EffectsInfo) analyse(f *ssa.Function) bool {
 				if ge.Ret[0] != 0 {
 					ret[k] |= mapLocs(ge.Ret[0], len(g.Params), x.Call.Args, get)
 				}
+				if ge.RetNil[0] {
+					ret[k] |= LocNil
+				}
 				return
 			}
 			ret[k] |= get(v)
@@ -471,13 +507,16 @@ func (ei *EffectsInfo) analyse(f *ssa.Function) bool {
 			}
 		}
 	})
-	changed := writes != e.Writes
+	changed := writes != e.Writes || mapWrites != e.MapWrites || len(nilSites) != len(e.NilMapWrites)
+	retNil := make([]bool, nr)
 	for k := 0; k < nr; k++ {
-		if ret[k] != e.Ret[k] || ident[k] != e.RetIdent[k] {
+		retNil[k] = ret[k]&LocNil != 0
+		ret[k] &^= LocNil
+		if ret[k] != e.Ret[k] || ident[k] != e.RetIdent[k] || retNil[k] != e.RetNil[k] {
 			changed = true
 		}
 	}
-	e.Writes, e.Sites, e.Ret, e.RetIdent = writes, sites, ret, ident
+	e.Writes, e.Sites, e.Ret, e.RetIdent, e.RetNil, e.MapWrites, e.NilMapWrites = writes, sites, ret, ident, retNil, mapWrites, nilSites
 	sort.Slice(e.Sites, func(i, j int) bool { return e.Sites[i].Instr.Pos() < e.Sites[j].Instr.Pos() })
 	return changed
 }
@@ -514,6 +553,24 @@ func (ei *EffectsInfo) applySummary(f *ssa.Function, ins ssa.Instruction, g *ssa
 	r := LocSet(0)
 	for k := range ge.Ret {
 		r |= mapLocs(ge.Ret[k]|ge.RetIdent[k], len(g.Params), args, get)
+		if ge.RetNil[k] {
+			r |= LocNil
+		}
 	}
 	return r
+}
+
+// applyMapWrites: the callee assigns into the map reachable from some of its parameters; seen from the caller that is an
+// assignment into the corresponding arguments.
+func (ei *EffectsInfo) applyMapWrites(f *ssa.Function, ins ssa.Instruction, g *ssa.Function, args []ssa.Value, get func(ssa.Value) LocSet, mapWrite func(ssa.Instruction, LocSet, string)) {
+	ge := ei.Of[Origin(g)]
+	if ge == nil || ge.MapWrites == 0 {
+		return
+	}
+	g = ge.Fn
+	for i := 0; i < len(g.Params) && i < len(args); i++ {
+		if ge.MapWrites.HasParam(i) {
+			mapWrite(ins, get(args[i]), fmt.Sprintf("call of %s, which assigns into the map of its parameter %s", FuncName(g), g.Params[i].Name()))
+		}
+	}
 }
